@@ -85,7 +85,9 @@ namespace pika::detail {
     {
         PIKA_ASSERT_OWNS_LOCK(l);
 
-        signal(std::move(l), lower_limit_);
-        return lower_limit_;
+        // read the limit while the lock is still held: signal() consumes the lock
+        std::int64_t const lower_limit = lower_limit_;
+        signal(std::move(l), lower_limit);
+        return lower_limit;
     }
 }    // namespace pika::detail
